@@ -7,7 +7,8 @@
 #       2 inconclusive (build failure, watchdog, monitor observed too little).
 # The monitor binary is rebuilt from /repo's current working tree on every call
 # (go's build cache is content addressed, so any edit under /repo is picked up).
-# VERIF_REPO=<dir> builds against another checkout (used only for calibration).
+# VERIF_REPO=<dir> builds against another checkout and VERIF_OUT=<dir> redirects
+# evidence/replays (both used only for calibration against scratch copies).
 set -u
 ROOT="$(cd "$(dirname "$0")" && pwd)"
 export VERIF_ROOT="$ROOT"
@@ -15,26 +16,29 @@ export GOFLAGS=-mod=mod GOPROXY=off GOSUMDB=off GOTOOLCHAIN=local
 export GOMAXPROCS="${GOMAXPROCS:-$(nproc)}"
 REPO="${VERIF_REPO:-/repo}"
 BIN="$ROOT/bin"
-mkdir -p "$BIN" "$ROOT/evidence" "$ROOT/replays"
+OUTDIR="${VERIF_OUT:-$ROOT}"
+mkdir -p "$BIN" "$OUTDIR/evidence" "$OUTDIR/replays"
+
+MODFLAG=()
+TMPMOD=""
+suffix=""
+if [ "$REPO" != "/repo" ]; then
+  TMPMOD="$(mktemp -d /tmp/verifmod.XXXXXX)"
+  sed "s#=> /repo#=> $REPO#" "$ROOT/harness/go.mod" > "$TMPMOD/go.mod"
+  cp "$ROOT/harness/go.sum" "$TMPMOD/go.sum"
+  MODFLAG=(-modfile="$TMPMOD/go.mod")
+  suffix="-$(echo "$REPO" | md5sum | cut -c1-8)"
+fi
+cleanup() {
+  [ -n "$TMPMOD" ] && rm -rf "$TMPMOD"
+  if [ -n "$suffix" ]; then rm -f "$BIN/mon$suffix" "$BIN/mon-race$suffix" "$BIN/mon-cover$suffix"; fi
+}
+trap cleanup EXIT
 
 build() { # $1 = output name, rest = extra go build flags
   local out="$1"; shift
-  local modflag=()
-  local tmpmod=""
-  if [ "$REPO" != "/repo" ]; then
-    tmpmod="$(mktemp -d /tmp/verifmod.XXXXXX)"
-    sed "s#=> /repo#=> $REPO#" "$ROOT/harness/go.mod" > "$tmpmod/go.mod"
-    cp "$ROOT/harness/go.sum" "$tmpmod/go.sum"
-    modflag=(-modfile="$tmpmod/go.mod")
-  fi
-  (cd "$ROOT/harness" && go build "${modflag[@]}" "$@" -o "$out" ./cmd/mon) 2>&1
-  local rc=$?
-  [ -n "$tmpmod" ] && rm -rf "$tmpmod"
-  return $rc
+  (cd "$ROOT/harness" && go build "${MODFLAG[@]}" "$@" -o "$out" ./cmd/mon) 2>&1
 }
-
-suffix=""
-[ "$REPO" != "/repo" ] && suffix="-$(echo "$REPO" | md5sum | cut -c1-8)"
 
 case "${1:-}" in
   --build)
@@ -43,7 +47,7 @@ case "${1:-}" in
     exit 0 ;;
   --replay)
     build "$BIN/mon$suffix" || { echo "INCONCLUSIVE build failed"; exit 2; }
-    exec "$BIN/mon$suffix" --replay "$2" ;;
+    "$BIN/mon$suffix" --replay "$2"; exit $? ;;
 esac
 
 PROP="${1:?usage: run.sh Cxx quick|thorough}"
@@ -72,5 +76,69 @@ if [ $rc -ne 0 ] && [ $rc -ne 1 ] && [ $rc -ne 2 ]; then
   echo "INCONCLUSIVE property=$PROP reason=monitor process died rc=$rc"
   exit 2
 fi
-[ -n "$suffix" ] && rm -f "$MON"
+
+# ---- thorough tier of C18: coverage-guided native fuzzing on top of the seeded workload.
+# One target per package (harness/cmd/mon/fuzz_test.go), iteration-counted (-fuzztime=Nx),
+# same monitor as the seeded workload. A crasher becomes the replay file and a VIOLATION.
+if [ "$PROP" = "C18" ] && [ "$TIER" = "thorough" ] && [ $rc -eq 0 ] && [ "${VERIF_NO_FUZZ:-0}" != "1" ]; then
+  FUZZN="${VERIF_FUZZ_EXECS:-4000000}"
+  FUZZLOG="$(mktemp /tmp/veriffuzz.XXXXXX)"
+  fuzzjson="[]"
+  for target in FuzzC18Date FuzzC18Roman FuzzC18Sem FuzzC18Size FuzzC18UU; do
+    (cd "$ROOT/harness" && timeout -s KILL 3600 go test "${MODFLAG[@]}" -run='^$' -fuzz="^${target}\$" -fuzztime="${FUZZN}x" ./cmd/mon) > "$FUZZLOG" 2>&1
+    frc=$?
+    last="$(grep -E '^fuzz: elapsed' "$FUZZLOG" | tail -1)"
+    execs="$(echo "$last" | sed -nE 's/.*execs: ([0-9]+).*/\1/p')"; interesting="$(echo "$last" | sed -nE 's/.*total: ([0-9]+).*/\1/p')"
+    echo "fuzz $target: rc=$frc execs=${execs:-0} corpus=${interesting:-0}"
+    fuzzjson="$(python3 -c 'import json,sys; a=json.loads(sys.argv[1]); a.append({"target":sys.argv[2],"execs":int(sys.argv[3] or 0),"interesting_inputs_in_corpus":int(sys.argv[4] or 0),"exit":int(sys.argv[5])}); print(json.dumps(a))' "$fuzzjson" "$target" "${execs:-0}" "${interesting:-0}" "$frc")"
+    if [ $frc -ne 0 ]; then
+      crasher="$(ls -t "$ROOT/harness/cmd/mon/testdata/fuzz/$target/"* 2>/dev/null | head -1)"
+      replay="$OUTDIR/replays/C18-fuzz-$target-$(date +%s).txt"
+      { echo "# go test -fuzz=$target found an input on which the C18 monitor reports a violation"; echo "# crasher file (go fuzz corpus format):"; [ -n "$crasher" ] && cat "$crasher"; echo "# go test output:"; tail -60 "$FUZZLOG"; } > "$replay"
+      # a crasher left in testdata would fail every later run, the replay file keeps it
+      [ -n "$crasher" ] && rm -f "$crasher"
+      if grep -q "C18 monitor:" "$FUZZLOG" || grep -qE "panic:|fatal error:" "$FUZZLOG"; then
+        grep -m3 -E "C18 monitor:|REPRODUCED|key=" "$FUZZLOG" | cut -c1-600
+        echo "VIOLATION property=C18 replay=$replay"
+        rc=1
+      else
+        echo "INCONCLUSIVE property=C18 reason=fuzz run of $target failed without a monitor report (see $replay)"
+        rc=2
+      fi
+      break
+    fi
+  done
+  python3 - "$OUTDIR/evidence/C18.json" "$fuzzjson" "$rc" <<'PYEOF'
+import json,sys
+p,fz,rc=sys.argv[1],json.loads(sys.argv[2]),int(sys.argv[3])
+try:
+    ev=json.load(open(p))
+    ev["coverage"]["native_fuzzing"]={"how":"go test -fuzz, one coverage-guided target per package, iteration counted, 16 workers, same monitor as the seeded workload","targets":fz}
+    ev["coverage"]["evaluations"]+=sum(t["execs"] for t in fz)
+    if rc==1: ev["violations"]=ev.get("violations",0)+1
+    json.dump(ev,open(p,"w"),indent=1)
+except Exception as e:
+    print("could not add fuzz statistics to evidence:",e)
+PYEOF
+  rm -f "$FUZZLOG"
+fi
+
+# ---- thorough tier: reach evidence. A cover-instrumented build of the same monitor runs this
+# property's quick-size workload once (same generators, same seed); the statement coverage
+# of the property's anchored files goes into the evidence as coverage.anchor_coverage.
+# Its verdict is not used (the instrumented run only measures what the workload executes).
+if [ "$TIER" = "thorough" ] && { [ $rc -eq 0 ] || [ $rc -eq 1 ]; } && [ "${VERIF_NO_COVER:-0}" != "1" ]; then
+  COVDIR="$(mktemp -d /tmp/verifcov.XXXXXX)"
+  CFLAGS=(-cover "-coverpkg=go.lstv.dev/util/...,verif/cmd/mon")
+  [ "$PROP" = "C19" ] && CFLAGS+=(-race)
+  if build "$BIN/mon-cover$suffix" "${CFLAGS[@]}" >/dev/null; then
+    mkdir -p "$COVDIR/data" "$COVDIR/out"
+    GOCOVERDIR="$COVDIR/data" VERIF_TIER=quick VERIF_OUT="$COVDIR/out" VERIF_MON="$BIN/mon-cover$suffix" \
+      timeout -s KILL 1800 "$BIN/mon-cover$suffix" "$PROP" >/dev/null 2>&1
+    if (cd "$ROOT/harness" && go tool covdata textfmt -i="$COVDIR/data" -o="$COVDIR/cov.txt") >/dev/null 2>&1; then
+      python3 "$ROOT/tools/anchorcov.py" "$PROP" "$COVDIR/cov.txt" "$OUTDIR/evidence/$PROP.json" || true
+    fi
+  fi
+  rm -rf "$COVDIR"
+fi
 exit $rc
